@@ -21,6 +21,16 @@ package routine
 //       predecessor (or that instance has already exited)
 //   H2/H3  the head of the chain is never lost: the current record's exitedCh is lastCh (also while the record
 //       has not been started yet), without a record prevExitedCh is, or lastCh is closed
+// Superseded instances (C05):
+//   C5  every instance of this container whose context is not the current record's context is cancelled
+//   C6  a record's cancel function belongs to the record's context
+//   C7  a live instance context derives from the container's current context
+//   SC5/SC8: while the container's lock is held nobody else can register an instance for it (xowner(ch) := this
+//       happens only in start, under this lock), so C5 and C8 survive the passage of time inside a critical section
+// State variant (C05, last clause): scof(k) is the StateRoutineContainer that owns container k (from its
+// construction or never: TS), rst(f) the state captured by routine closure f.
+//   S1  the current routine of an owned container is the closure that captured the currently stored state
+//   S2  without a routine, the owner has no state routine or its state is empty
 // By induction along pred, closed(ch) implies that the instance ch and every instance started before it
 // have returned; an instance enters the function only after closed(pred), every later instance waits for
 // a channel that is still open while it runs: never two at once.
@@ -30,6 +40,8 @@ package routine
 //@ ghostmap ictx: ref -> ref once
 //@ ghostmap xrun: ref -> ref owned
 //@ ghostmap chof: ref -> ref once
+//@ ghostmap scof: ref -> ref once
+//@ ghostmap rst: ref -> any once
 //@ ghostmap xfin: ref -> ref owned
 //@ ghostmap xdone: ref -> bool by xfin
 //
@@ -45,8 +57,18 @@ package routine
 //@   inv H2: this.routine != nil ==> this.routine.r == this && this.routine.routine != nil && (this.routine.exitedCh == this.lastCh || (this.routine.exitedCh == nil && (this.lastCh == nil || closed(this.lastCh))))
 //@   inv R1: forall rr: *runningRoutine {rr.r} :: rr.r == this && rr.ctx != nil && !rr.exited ==> rr.exitedCh != nil && chof(rr.ctx) == rr.exitedCh && xowner(rr.exitedCh) == this
 //@   inv R2: forall rr: *runningRoutine {rr.r} :: rr.r == this && rr.ctx != nil && rr.exited ==> chof(rr.ctx) != nil && xdone(chof(rr.ctx))
+//@   inv C5: forall ch: ref {xowner(ch)} :: xowner(ch) == this && !(this.routine != nil && this.routine.ctx == ictx(ch)) ==> cancelled(ictx(ch))
+//@   inv C6: forall rr: *runningRoutine {rr.r} :: rr.r == this && rr.ctx != nil ==> (rr.ctxCancel != nil && cancelOf(rr.ctxCancel) == rr.ctx) || cancelled(rr.ctx)
+//@   inv C7: this.routine != nil && this.routine.ctx != nil && !cancelled(this.routine.ctx) ==> this.ctx != nil && ctxparent(this.routine.ctx) == this.ctx
+//@   inv C8: forall ch: ref {xowner(ch)} :: xowner(ch) == this ==> ictx(ch) != nil
+//@   stable SC5: forall ch: ref {xowner(ch)} :: xowner(ch) == this && !(this.routine != nil && this.routine.ctx == ictx(ch)) ==> cancelled(ictx(ch))
+//@   stable SC8: forall ch: ref {xowner(ch)} :: xowner(ch) == this ==> ictx(ch) != nil
+//@   inv S0: scof(this) != nil ==> cast(scof(this), StateRoutineContainer).rc == this
+//@   inv S1: scof(this) != nil && this.routine != nil ==> rst(this.routine.routine) == cast(scof(this), StateRoutineContainer).s && cast(scof(this), StateRoutineContainer).s != zero()
+//@   inv S2: scof(this) != nil && this.routine == nil ==> cast(scof(this), StateRoutineContainer).stateRoutine == nil || cast(scof(this), StateRoutineContainer).s == zero()
 //@   inv H3: this.routine == nil ==> this.prevExitedCh == this.lastCh || (this.prevExitedCh == nil && (this.lastCh == nil || closed(this.lastCh)))
 //
+//@ gtrans TS: forall k: ref {scof(k)} :: old(allocated(k)) && old(scof(k)) == nil ==> scof(k) == nil
 //@ ginv E0: forall ch: ref {xowner(ch)} :: xowner(ch) != nil ==> ch != nil && allocated(ch) && madein(ch, "(*runningRoutine).start")
 //@ ginv E1: forall ch: ref {xowner(ch)} :: xowner(ch) != nil && closed(ch) ==> xrun(ch) == nil && (pred(ch) != nil ==> closed(pred(ch)))
 //@ ginv E3: forall ch: ref {xdone(ch)} :: xdone(ch) ==> xfin(ch) == nil
@@ -70,6 +92,7 @@ package routine
 //@   opt holds = r.bcast.mtx
 //@   requires r != nil && r.r != nil && ctx != nil
 //@   requires current: r.r.routine == r
+//@   requires rootctx: ctx == r.r.ctx
 //@   requires chain: waitCh == r.r.lastCh || r.r.lastCh == nil || closed(r.r.lastCh)
 //@   ghost go 1: xowner(exitedCh) := r.r
 //@   ghost go 1: xrun(exitedCh) := me
@@ -102,6 +125,7 @@ package routine
 //@   props C04 C05
 //@   opt frame = skip
 //@   requires k != nil
+//@   requires plain: scof(k) == nil
 //
 //@ closure (*RoutineContainer).SetRoutine$1
 //@   props C04
@@ -111,6 +135,8 @@ package routine
 //@   opt holds = bcast.mtx
 //@   opt frame = skip
 //@   requires k != nil && broadcast != nil
+//@   opt breaks = S1 S2
+//@   requires owned: scof(k) != nil ==> (routine != nil ==> rst(routine) == cast(scof(k), StateRoutineContainer).s && cast(scof(k), StateRoutineContainer).s != zero()) && (routine == nil ==> cast(scof(k), StateRoutineContainer).stateRoutine == nil || cast(scof(k), StateRoutineContainer).s == zero())
 //
 //@ func (*RoutineContainer).SetContext
 //@   props C04 C05 C14
@@ -172,7 +198,7 @@ package routine
 //@ func (*StateRoutineContainer).GetState
 //@   props C05
 //@   opt frame = skip
-//@   requires s != nil
+//@   requires s != nil && s.rc != nil
 //
 //@ closure (*StateRoutineContainer).GetState$1
 //@   props C05
@@ -180,7 +206,7 @@ package routine
 //@ func (*StateRoutineContainer).SetState
 //@   props C04 C05
 //@   opt frame = skip
-//@   requires s != nil && s.rc != nil
+//@   requires s != nil && s.rc != nil && scof(s.rc) == s
 //
 //@ closure (*StateRoutineContainer).SetState$1
 //@   props C04 C05
@@ -190,12 +216,12 @@ package routine
 //@   opt holds = rc.bcast.mtx
 //@   opt frame = skip
 //@   opt pure-callbacks = compare
-//@   requires s != nil && s.rc != nil && broadcast != nil
+//@   requires s != nil && s.rc != nil && broadcast != nil && scof(s.rc) == s
 //
 //@ func (*StateRoutineContainer).SwapValue
 //@   props C04 C05
 //@   opt frame = skip
-//@   requires s != nil && s.rc != nil
+//@   requires s != nil && s.rc != nil && scof(s.rc) == s
 //
 //@ closure (*StateRoutineContainer).SwapValue$1
 //@   props C04 C05
@@ -203,7 +229,7 @@ package routine
 //@ func (*StateRoutineContainer).SetStateRoutine
 //@   props C04 C05
 //@   opt frame = skip
-//@   requires s != nil && s.rc != nil
+//@   requires s != nil && s.rc != nil && scof(s.rc) == s
 //
 //@ closure (*StateRoutineContainer).SetStateRoutine$1
 //@   props C04 C05
@@ -213,7 +239,9 @@ package routine
 //@   inline
 //@   opt holds = rc.bcast.mtx
 //@   opt frame = skip
-//@   requires s != nil && s.rc != nil && broadcast != nil
+//@   opt breaks = S1 S2
+//@   requires s != nil && s.rc != nil && broadcast != nil && scof(s.rc) == s
+//@   ghost closure 1: rst(closure) := st
 //
 //@ func (*StateRoutineContainer).SetContext
 //@   props C05
@@ -235,5 +263,6 @@ package routine
 //@   opt frame = skip
 //@   requires s != nil && s.rc != nil && ctx != nil
 //
+//@ assume-note routine.NewStateRoutineContainer*: the constructors register the new container as the owner of its RoutineContainer (ghost scof(rc) := result); not verified
 // NewRoutineContainer applies caller-supplied options (opaque interface calls) to the new object.
 //@ assume-note routine.NewRoutineContainer: options only set exitedCbs / retryBo; a new container has no routine, no context and an empty hand-over chain (constructor not verified)
